@@ -151,6 +151,11 @@ func checkC08(t core.TB, rec *core.Recorder, env *gen.Env, fc *feCase) {
 		return
 	}
 	defer os.RemoveAll(filepath.Dir(root))
+	if _, err := (&wsRun{Root: root, WS: fc.WS, Meta: fc.Meta}).expect(env, runCfg{Sel: selection{HasEnable: true, Enable: []string{"dupSubExpr"}}, CheckTests: true, CheckGenerated: true}); err != nil {
+		rec.Reject() // not well-typed: outside the domain
+		rec.Count("workspace-rejected")
+		return
+	}
 	outs := map[string][]e2e.Line{}
 	raw := map[string]e2e.Result{}
 	for _, fe := range frontEnds {
@@ -178,13 +183,21 @@ func checkC08(t core.TB, rec *core.Recorder, env *gen.Env, fc *feCase) {
 			return
 		}
 		lines, _ := e2e.ParseLines(res.Out)
+		var kept []e2e.Line
 		for i := range lines {
 			lines[i].File = e2e.Expand(lines[i].Loc, root, "", "")
 			if !filepath.IsAbs(lines[i].File) {
 				lines[i].File = filepath.Join(root, lines[i].File)
 			}
+			if !strings.HasPrefix(lines[i].File, root+"/") {
+				// a diagnostic for a file that is not part of the analysed packages
+				rec.Violation(t, "C08|"+fe+"|"+lines[i].Checker+"|file-outside-the-packages",
+					fmt.Sprintf("%s reports a diagnostic for a file that does not belong to the analysed packages: %s\ncommand: %s", fe, lines[i].Key(), res.Cmd), fc)
+				continue
+			}
+			kept = append(kept, lines[i])
 		}
-		outs[fe] = lines
+		outs[fe] = kept
 	}
 	total := 0
 	for _, fe := range frontEnds {
